@@ -18,6 +18,9 @@ import (
 //   * jpv-impl `run t`: the same values, Set nil for the same results, the same locations (the
 //     location of an accessor is found by Set-ting a sentinel on a fresh copy and diffing);
 //     jpv-impl `calls t`: the same call log.
+// One case in 50 (class accessor-valued, c12AccValuedCase in b12_helpers.go): values that are themselves a
+// jsonpath.Accessor — in the document, as the document, or returned by a user function — must come back as that
+// VALUE in plain mode and wrapped like any other value in accessor mode (Get() yields the Accessor value). Model-free.
 
 type c12 struct{}
 
@@ -113,6 +116,9 @@ func c12Abnormal(o Outcome) bool {
 
 func (c12) Exec(seed int64, i int, tier string) Record {
 	r := CaseRng(seed, "C12", i)
+	if i%50 == 31 {
+		return c12AccValuedCase(r) // class accessor-valued (b12_helpers.go)
+	}
 	doc, p, inFilter := c12Gen(r, 65, 35, false, 8, 75)
 	text := Render(p, r)
 	jn := r.Chance(25)
